@@ -29,7 +29,10 @@ func (r *vrtRec) GetAddress() string                      { return r.addr }
 func (r *vrtRec) GetPreviousWinners() []string            { return nil }
 func (r *vrtRec) GetID() string                           { return r.id }
 func (r *vrtRec) GetOrderedAssetsFloat() []opr.AssetFloat { return nil }
-func (r *vrtRec) GetOrderedAssetsUint() []opr.AssetUint   { return r.assets }
+// (the real record types build a fresh list on every call; callers rename its elements in place)
+func (r *vrtRec) GetOrderedAssetsUint() []opr.AssetUint {
+	return append([]opr.AssetUint{}, r.assets...)
+}
 func (r *vrtRec) Marshal() ([]byte, error)                { return nil, nil }
 func (r *vrtRec) GetType() opr.Type                       { return opr.V2 }
 func (r *vrtRec) Clone() opr.OPR                          { c := *r; return &c }
